@@ -13,9 +13,9 @@
                         look-ahead so that "\r" + "\n" is one line break even across a boundary.
    * [tree]             parso's tree reduced to what positions depend on: leaves with kind,
                         prefix, value, recorded start; nodes with children.
-   * [consistent]       every leaf's recorded start = [adv] of the origin (1,0) over all the
-                        text in front of it including its own prefix (hypothesis on parso,
-                        evaluated on serialised real trees on every run).
+   * [consistent]       every non-empty leaf's recorded start = [adv] of the origin (1,0) over
+                        all the text in front of it including its own prefix (hypothesis on
+                        parso, evaluated on serialised real trees on every run).
    * [slice_at], [get_line_code], [def_range]
                         BaseName.line/column text, BaseName.get_line_code,
                         BaseName.get_definition_start_position/_end_position.
@@ -149,12 +149,18 @@ Fixpoint first_char (ls : list leaf) : option N :=
 Definition value_next (l : leaf) (r : list leaf) : option N :=
   match lvalue l with c :: _ => Some c | [] => first_char r end.
 
+Definition is_empty (s : str) : bool := match s with [] => true | _ => false end.
+
+(* Zero-width leaves (parso's error leaves for INDENT/DEDENT, the endmarker) carry no text;
+   parso records the INDENT error leaf at the indented column although it precedes the
+   whitespace in leaf order, so only leaves with a non-empty value are constrained. *)
 Fixpoint consistent_from (p : pos) (ls : list leaf) : bool :=
   match ls with
   | [] => true
   | l :: r =>
       let p1 := adv p (lprefix l) (value_next l r) in
-      pos_eqb p1 (lstart l) && consistent_from (adv p1 (lvalue l) (first_char r)) r
+      (is_empty (lvalue l) || pos_eqb p1 (lstart l))
+      && consistent_from (adv p1 (lvalue l) (first_char r)) r
   end.
 
 Definition origin : pos := (1, 0).
@@ -185,6 +191,9 @@ Fixpoint subtree (t : tree) (path : list nat) : option tree :=
               | Leaf _ => None
               end
   end.
+
+(* no zero-width leaf below this node *)
+Definition solid (t : tree) : bool := forallb (fun l => negb (is_empty (lvalue l))) (leaves t).
 
 Definition is_newline (l : leaf) : bool := match lk l with KNewline => true | _ => false end.
 
